@@ -393,7 +393,8 @@ def emittedDeserialize (S : Schema) (T : String → Bytes → Bytes) (r : Rec) (
   a size-limited member -- are not `type` / `property` / `size` (the local is called `type_` / `property_` /
   `size_`); the size member of a byte array is not `type` / `property` (the discriminant of a condition is
   written with its generated name since the repair of `generate_condition`);
-* only the struct's size member is called `size`, and no member `size_`;
+* the struct's size member, and only it, is called `size` (the `_deserialize` of a base class returns the window
+  `(size_ - len(buffer), size_)`, and `size_` is the size member's local only under that name), and no member `size_`;
 * count / byte-size / size-of members are unsigned (a negative value would make `buffer[:n]` count from the end);
 * a condition on an enum-typed discriminant names a member of the enum, and enum member names are unique;
 * the own members of a class with a base class refer (condition, count, size, limit) to own members only. -/
@@ -402,7 +403,7 @@ def localNameOk (n : String) : Bool := rawNameOk n && n != "size"
 
 def wfgdKind (f : Field) : Bool :=
   (match f.kind with
-    | .sizeF _ => true
+    | .sizeF _ => f.name == "size"
     | _ => f.name != "size") &&
   (match f.kind with
     | .count _ s _ _ | .byteSize _ s _ | .sizeOf _ s _ => !s
